@@ -63,7 +63,7 @@ QMdCmpRoutes == MdRoutesTo(2, 29) \cup MdRoutesTo(2, 28) \cup MdRoutesTo(12, 31)
 (* ---- arithmetic ---- *)
 QReceivers == {YMV(2019, 12, 1), YMV(2020, 1, 1), YMV(2020, 2, 1), YMV(2021, 6, 1), YMV(0, 1, 1), YMV(-1, 12, 1),
                YMV(-271821, 4, 1), YMV(-271821, 5, 1), YMV(-271821, 6, 1), YMV(275760, 9, 1), YMV(275760, 8, 1), YMV(275759, 10, 1),
-               YMV(2020, 1, 31), YMV(2020, 2, 29), YMV(2021, 3, 15)}
+               YMV(2020, 1, 31), YMV(2020, 2, 29), YMV(2021, 3, 15), YMV(275760, 9, 20), YMV(-271821, 4, 10)}
 SameSignI(a, b) == a = 0 \/ b = 0 \/ SgnI(a) = SgnI(b)
 QDurSet == {D \in [y : -3..3, mo : -25..25] : SameSignI(D.y, D.mo)}
            \cup {[y |-> 273740, mo |-> 8], [y |-> 273740, mo |-> 9], [y |-> -273841, mo |-> -8], [y |-> -273841, mo |-> -9], [y |-> -273841, mo |-> -10],
